@@ -36,7 +36,7 @@ def _run(w):
     kw = dict(window_size=1, num_clusters=K, iteration_limit=lim, min_cluster_size=1, sparsity_weight=0.1,
               label_switching_cost=b)
     sc = Scripted(inp, K, n, mean_pattern=_mean_pattern,
-                  scripted=('statistics', 'optimise', 'bic', 'ch', 'initial'))     # repopulation is real
+                  scripted=('statistics', 'optimise', 'initial'))     # repopulation and the metrics are real
     with sc:
         if nt.get('joint'):
             series = [np.array([[_data_pattern(i, j, s) for j in range(n)] for i in range(L)])
